@@ -4,6 +4,14 @@ manifest stays valid while checks are added)."""
 import json
 
 claimed = {
+ "C01": dict(level="exploration", engine="I",
+   text="bounded-exhaustive enumeration of length structures (attribute-length sequences x declared length x buffer length up to a body bound), tiny-alphabet bodies and the 65535-byte family, through all 7 decoding entry points x buffer capacities x fresh/used Message x release/debug; every call is checked for panic, hang, allocation bound and, on success, pointer-exact value views. Exhaustive over the length/offset logic that every decoder branch depends on; byte content is from fixed fillers",
+   note="bounds: body <= 20/28 bytes for the full product (quick/thorough); allocation clause uses 64n+4096; random / coverage-guided tails of the quantifier are not attempted",
+   technique="bounded exhaustive enumeration of input shapes against an oracle (explicit finite domain, sharded, no sampling)", ref="DESIGN.md section 2 C01"),
+ "C02": dict(level="exploration", engine="I",
+   text="the same enumerated input space is decoded by the library and by an independent RFC 5389 parser; verdict, class, method, length, transaction ID and the ordered TLV list must agree on every input, and Get/Contains/ForEach (incl. failing callbacks at every visit index) are checked on every accepted message",
+   note="bounds: body <= 24/32 bytes; all 65536 type words; trusts the reference parser in /verif/ref/stunwire.go",
+   technique="bounded exhaustive enumeration of input shapes, differential against a reference parser", ref="DESIGN.md section 2 C02"),
  "C19": dict(level="exploration", engine="I",
    text="complete-domain enumeration: every (method,class) pair and every 16-bit wire word is checked against a bit-by-bit reference from RFC 5389 figure 3; the domain is finite and fully covered, so the run decides the property",
    note="trusts the hand-written reference layout table and the Go toolchain",
